@@ -105,6 +105,13 @@ func (k Keeper) InitGenesis(
 			recordKeyBytes, _ := hexutil.Decode(recordKey)
 			k.AppendUndelegationToMature(ctx, epoch, recordKeyBytes)
 			k.SetUndelegationMaturityEpoch(ctx, recordKeyBytes, epoch)
+			// the hold this module placed on the undelegation is not part of the delegation
+			// module's genesis; place it again, or the undelegation matures at its
+			// completion height without waiting for the epoch, and the release at the end of
+			// the epoch fails
+			if err := k.delegationKeeper.IncrementUndelegationHoldCount(ctx, recordKeyBytes); err != nil {
+				panic(fmt.Sprintf("could not hold undelegation %s: %s", recordKey, err))
+			}
 		}
 	}
 	// ApplyValidatorChanges only gets changes and hence the vote power must be set here.
